@@ -3,6 +3,8 @@ package checks
 import (
 	"fmt"
 
+	"github.com/uhn/ggql/pkg/ggql"
+
 	"verif/internal/back"
 	"verif/internal/gen"
 	"verif/internal/model"
@@ -116,6 +118,132 @@ func runC08(c *run.Ctx) {
 		}
 	}
 	c08Staged(c)
+	c08Subscription(c)
+}
+
+// ---------------------------------------------------------------- events of abstract-typed subscription fields
+
+type c08Sub struct{ got []interface{} }
+
+func (s *c08Sub) Match(id string) bool { return true }
+func (s *c08Sub) Send(v interface{}) error {
+	s.got = append(s.got, v)
+	return nil
+}
+func (s *c08Sub) Unsubscribe() {}
+
+type c08SubRoot struct {
+	Query        *zoo.PetQuery
+	Subscription *c08Subs
+}
+
+type c08Subs struct{ last *c08Sub }
+
+func (s *c08Subs) Resolve(field *ggql.Field, args map[string]interface{}) (interface{}, error) {
+	s.last = &c08Sub{}
+	return ggql.NewSubscription(s.last, field, args), nil
+}
+
+// c08Subscription: a subscription field typed by an interface or a union; the events published are objects of Go types
+// bound (by @go / by name) to different object types. Each message must be the subscriber's selection applied to the
+// event resolved as ITS concrete type.
+func c08Subscription(c *run.Ctx) {
+	n := c.N(200, 8000)
+	for i := 0; i < n && !c.TooMany(); i++ {
+		r := c.Rand(5000000 + i)
+		ms := zoo.PetsModelV(i)
+		pr, g := zoo.PetsData(i)
+		ms.Types = append(ms.Types, &model.TypeDef{Kind: model.Object, Name: "Subscription", Fields: []*model.FieldDef{
+			{Name: "watch", Type: model.Named("Pet")}, {Name: "watchAny", Type: model.Named("Animal")}, {Name: "watchDog", Type: model.Named("Dog")}}})
+		ms.Subscription = "Subscription"
+		ms.Reindex()
+		subs := &c08Subs{}
+		root := ggql.NewRoot(&c08SubRoot{Query: pr.Query, Subscription: subs})
+		if err := root.ParseString(ms.SDL(model.SDLOpts{})); err != nil {
+			c.Violation("c08-schema-rejected", map[string]interface{}{"error": err.Error()})
+			return
+		}
+		fname := []string{"watch", "watchAny", "watch", "watchAny", "watchDog"}[r.Intn(5)]
+		st := ms.Type("Subscription").Field(fname).Type.Name
+		// a selection for a value of static type st, generated over the model with the subscription field as only root selection
+		tmp := gen.Doc(r, &model.Schema{Types: append([]*model.TypeDef{{Kind: model.Object, Name: "Query", Fields: []*model.FieldDef{{Name: "ev", Type: model.Named(st)}}}}, withoutQuery(ms.Types)...), Query: "Query"},
+			gen.DocOpts{Frags: false, Aliases: true, Abstract: true, Depth: 3, MaxOps: 1, MaxSels: 5})
+		var sels []model.Sel
+		for _, sel := range tmp.Doc.Ops[0].Sels {
+			if f, isF := sel.(*model.Field); isF && f.Name == "ev" {
+				sels = f.Sels
+			}
+		}
+		if len(sels) == 0 {
+			sels = []model.Sel{&model.Field{Name: "__typename"}, &model.Inline{Cond: "Dog", Sels: []model.Sel{&model.Field{Name: "tricks"}}}, &model.Inline{Cond: "Cat", Sels: []model.Sel{&model.Field{Name: "lives"}}}}
+		}
+		sub := &model.Doc{Ops: []*model.Op{{Kind: "subscription", Name: "S", Sels: []model.Sel{&model.Field{Name: fname, Sels: sels}}}}}
+		text := sub.Print(model.LayoutN(i))
+		res := root.ResolveString(text, "", nil)
+		if es, has := res["errors"]; has || subs.last == nil {
+			c.Violation("c08-subscription-rejected", map[string]interface{}{"document": text, "errors": fmt.Sprint(es)})
+			continue
+		}
+		// the events: every pet object of the data set (query root's pets list holds pointers of all three Go types)
+		q, _ := g.Root.F["query"].(*model.Node)
+		evNodes, _ := q.F["pets"].(model.VList)
+		for ei, ev := range pr.Query.Pets {
+			en, _ := evNodes[ei].(*model.Node)
+			if fname == "watchDog" && en.Type != "Dog" {
+				continue
+			}
+			before := len(subs.last.got)
+			var aerr error
+			pv, _ := run.Protect(func() { _, aerr = root.AddEvent("t", ev) })
+			c.Eval(fmt.Sprintf("sub|%s|%d|%d", text, i%16, ei), true)
+			c.Count("subscription_events_checked", 1)
+			c.Bucket("doc_features", "abstract-subscription-event")
+			// expected: the selection applied to the event node as the value of a field of static type st
+			wrap := &model.Graph{}
+			wrap.Nodes = append(wrap.Nodes, g.Nodes...)
+			wq := &model.Node{ID: len(wrap.Nodes), Type: "Query", F: map[string]interface{}{"ev": en}}
+			wr := &model.Node{ID: len(wrap.Nodes) + 1, Type: "__root", F: map[string]interface{}{"query": wq}}
+			wrap.Nodes = append(wrap.Nodes, wq, wr)
+			wrap.Root = wr
+			ws := &model.Schema{Types: append([]*model.TypeDef{{Kind: model.Object, Name: "Query", Fields: []*model.FieldDef{{Name: "ev", Type: model.Named(st)}}}}, withoutQuery(ms.Types)...), Query: "Query"}
+			wd := &model.Doc{Ops: []*model.Op{{Kind: "query", Name: "Q", Sels: []model.Sel{&model.Field{Name: "ev", Sels: sels}}}}}
+			exp := ref.Execute(ws, wd, "Q", nil, wrap, nil, ref.Flags{})
+			want, _ := exp.Data.(map[string]interface{})
+			diag := ""
+			switch {
+			case pv != nil:
+				diag = fmt.Sprintf("AddEvent panics: %v", pv)
+			case aerr != nil:
+				diag = "AddEvent error: " + aerr.Error()
+			case len(subs.last.got) != before+1:
+				diag = fmt.Sprintf("%d messages delivered for one event", len(subs.last.got)-before)
+			default:
+				got := ref.Canon(subs.last.got[before])
+				if gm, isM := got.(map[string]interface{}); isM {
+					if inner, has := gm[fname]; has && len(gm) == 1 {
+						got = inner // messages may be wrapped in the field's response key
+					}
+				}
+				if !ref.Match(want["ev"], got) {
+					diag = "message differs at " + ref.Mismatch(want["ev"], got)
+				}
+			}
+			if diag != "" {
+				c.Violation("c08-subscription-event", map[string]interface{}{"sdl": ms.SDL(model.SDLOpts{}), "subscription": text, "event_type": en.Type, "diag": diag, "expected": ref.Render(want["ev"])})
+				break
+			}
+		}
+	}
+}
+
+func withoutQuery(ts []*model.TypeDef) []*model.TypeDef {
+	var out []*model.TypeDef
+	for _, t := range ts {
+		if t.Name != "Query" && t.Name != "Subscription" {
+			out = append(out, t)
+		}
+	}
+	return out
 }
 
 // c08Staged: the type hierarchy GROWS between requests. A root is loaded with a schema in which one object type does not
